@@ -34,9 +34,13 @@ type Case struct {
 	EditKind []string      `json:"edit_kind,omitempty"`
 	EditVal  []float64     `json:"edit_val,omitempty"`
 	Inputs   [][][2]vkit.F `json:"inputs,omitempty"` // Inputs[d][k]: point k expressed in system d
-	Steps    []Step        `json:"steps,omitempty"`
-	Hop      bool          `json:"hop,omitempty"`  // some pair needs the intermediate WGS84 step (generator label)
-	Axis     bool          `json:"axis,omitempty"` // some definition has a non-default axis order
+	// NBase: the first NBase inputs of every system are the base positions (inside the usable region); they are followed
+	// by pairs of inputs that differ only in the sign of a zero coordinate (step "twin" calls both members of a pair one
+	// after the other) and by the four inputs on which a transformer is likely to fail. 0 = all but the last four.
+	NBase int    `json:"nbase,omitempty"`
+	Steps []Step `json:"steps,omitempty"`
+	Hop   bool   `json:"hop,omitempty"`  // some pair needs the intermediate WGS84 step (generator label)
+	Axis  bool   `json:"axis,omitempty"` // some definition has a non-default axis order
 	// geom
 	G      *vkit.GJ   `json:"g,omitempty"`
 	Aff    [6]float64 `json:"aff,omitempty"`
@@ -160,14 +164,23 @@ func gen(t *rapid.T) Case {
 		}
 		// inputs on which a transformer is likely to fail (pole, latitude out of range, absurd or NaN coordinates): the
 		// calls after a failed one are where stale state shows
+		// pairs that differ only in the sign of a zero: a zero easting or northing next to a base coordinate or to a
+		// northing far beyond anything on the map (where the inverse of a conic projection looks at the sign of x)
+		negz := vkit.F(math.Copysign(0, -1))
+		for _, o := range []vkit.F{row[0][1], 1e7, 3e7, -3e7} {
+			row = append(row, [2]vkit.F{0, o}, [2]vkit.F{negz, o})
+		}
+		row = append(row, [2]vkit.F{row[0][0], 0}, [2]vkit.F{row[0][0], negz})
 		row = append(row, [2]vkit.F{0, 90}, [2]vkit.F{vkit.F(lon), 120}, [2]vkit.F{1e30, -1e30}, [2]vkit.F{vkit.F(math.NaN()), 0})
 		c.Inputs = append(c.Inputs, row)
 	}
-	npts += 4
+	c.NBase = npts
+	const ntwin = 5
+	npts += 2*ntwin + 4
 	ns := rapid.IntRange(2, 30).Draw(t, "nsteps")
 	ntr := 0
 	for i := 0; i < ns; i++ {
-		op := rapid.SampledFrom([]string{"build", "call", "call", "call", "call", "reparse", "copyedit"}).Draw(t, "op")
+		op := rapid.SampledFrom([]string{"build", "call", "call", "call", "call", "reparse", "copyedit", "twin"}).Draw(t, "op")
 		if ntr == 0 {
 			op = "build"
 		}
@@ -180,6 +193,9 @@ func gen(t *rapid.T) Case {
 		case "call":
 			st.Tr = rapid.IntRange(0, ntr-1).Draw(t, "tr")
 			st.Pt = rapid.IntRange(0, npts-1).Draw(t, "pt")
+		case "twin": // both members of a pair, one directly after the other, in either order
+			st.Tr = rapid.IntRange(0, ntr-1).Draw(t, "tr")
+			st.Pt = c.NBase + rapid.IntRange(0, 2*ntwin-1).Draw(t, "twinpt")
 		case "reparse", "copyedit":
 			st.Src = rapid.IntRange(0, nd-1).Draw(t, "which")
 		}
@@ -249,42 +265,59 @@ func runHistory(c Case) (v vkit.Verdict) {
 			srs[st.Src] = &cp
 			cur[st.Src] = c.Edited[st.Src]
 			v.Class("copyedit")
-		case "call":
+		case "call", "twin":
 			if st.Tr >= len(trs) {
 				continue
 			}
 			tt := &trs[st.Tr]
-			in := c.Inputs[tt.src][st.Pt]
-			x, y := float64(in[0]), float64(in[1])
-			gx, gy, gerr, pan := callT(tt.tr, x, y)
-			if pan != "" {
-				return v.Fail("step %d: transformer %q -> %q panicked on (%v, %v) (call %d of this transformer): %s", i, c.Defs[tt.src], c.Defs[tt.dst], x, y, tt.calls+1, pan)
+			nbase := c.NBase
+			if nbase == 0 {
+				nbase = len(c.Inputs[tt.src]) - 4
 			}
-			tt.calls++
-			if tt.calls > maxCalls {
-				maxCalls = tt.calls
+			pts := []int{st.Pt}
+			if st.Op == "twin" {
+				pts = []int{st.Pt, nbase + (st.Pt - nbase) ^ 1} // the other member of the pair
+				v.Class("zero_sign_twins_called_consecutively")
 			}
-			// the reference: freshly parsed definitions, freshly built transformer, first call
-			var fx, fy float64
-			var ferr error
-			ftr, err := freshTransform(tt.srcTxt, tt.dstTxt)
-			if err != nil {
-				return v.Fail("fresh NewTransform(%q, %q): %v", tt.srcTxt, tt.dstTxt, err)
-			}
-			if (ftr == nil || tt.tr == nil) && st.Pt >= len(c.Inputs[tt.src])-4 {
-				// The two references are Equal for at least one of the two builds, so NewTransform may short-cut to the
-				// identity. Identity and inverse-then-forward agree inside the usable region (to rounding) but not on the
-				// four deliberately failing inputs, which are far outside it; those are only used on real transformers.
-				continue
-			}
-			var fpan string
-			fx, fy, ferr, fpan = callT(ftr, x, y)
-			if fpan != "" {
-				return v.Fail("fresh transformer %q -> %q panicked on (%v, %v): %s", c.Defs[tt.src], c.Defs[tt.dst], x, y, fpan)
-			}
-			if (gerr != nil) != (ferr != nil) || (gerr == nil && (!same(gx, fx) || !same(gy, fy))) {
-				return v.Fail("step %d: call %d of transformer %q -> %q on (%v, %v) returned (%v, %v, err=%v); a freshly built transformer returns (%v, %v, err=%v)",
-					i, tt.calls, tt.srcTxt, tt.dstTxt, x, y, gx, gy, gerr, fx, fy, ferr)
+			for _, pt := range pts {
+				if msg := func() string {
+					in := c.Inputs[tt.src][pt]
+					x, y := float64(in[0]), float64(in[1])
+					gx, gy, gerr, pan := callT(tt.tr, x, y)
+					if pan != "" {
+						return fmt.Sprintf("step %d: transformer %q -> %q panicked on (%v, %v) (call %d of this transformer): %s", i, c.Defs[tt.src], c.Defs[tt.dst], x, y, tt.calls+1, pan)
+					}
+					tt.calls++
+					if tt.calls > maxCalls {
+						maxCalls = tt.calls
+					}
+					// the reference: freshly parsed definitions, freshly built transformer, first call
+					var fx, fy float64
+					var ferr error
+					ftr, err := freshTransform(tt.srcTxt, tt.dstTxt)
+					if err != nil {
+						return fmt.Sprintf("fresh NewTransform(%q, %q): %v", tt.srcTxt, tt.dstTxt, err)
+					}
+					if (ftr == nil || tt.tr == nil) && pt >= nbase {
+						// The two references are Equal for at least one of the two builds, so NewTransform may short-cut to the
+						// identity. Identity and inverse-then-forward agree inside the usable region (to rounding) but not on the
+						// zero-sign pairs and the four deliberately failing inputs, which are far outside it; those are only used on
+						// real transformers.
+						return ""
+					}
+					var fpan string
+					fx, fy, ferr, fpan = callT(ftr, x, y)
+					if fpan != "" {
+						return fmt.Sprintf("fresh transformer %q -> %q panicked on (%v, %v): %s", c.Defs[tt.src], c.Defs[tt.dst], x, y, fpan)
+					}
+					if (gerr != nil) != (ferr != nil) || (gerr == nil && (!same(gx, fx) || !same(gy, fy))) {
+						return fmt.Sprintf("step %d: call %d of transformer %q -> %q on (%v, %v) returned (%v, %v, err=%v); a freshly built transformer returns (%v, %v, err=%v)",
+							i, tt.calls, tt.srcTxt, tt.dstTxt, x, y, gx, gy, gerr, fx, fy, ferr)
+					}
+					return ""
+				}(); msg != "" {
+					return v.Fail("%s", msg)
+				}
 			}
 		}
 	}
